@@ -62,8 +62,24 @@ func (f *fcHarness) check(where string) {
 		return
 	}
 	simrt.Atomically(func() {
-		s := f.snd.Window()
-		rw, _ := f.rcv.State()
+		// The snapshot must be taken without a scheduling point in it. Reading
+		// the receiver's state takes the receiver's lock; if the holder of
+		// that lock is parked (an implementation may have a scheduling point
+		// inside its critical section, e.g. closing a channel under the lock)
+		// the reader is parked too and the other terms move meanwhile. So: take
+		// the snapshot, and take it again if the scheduler ran in between.
+		var s int64
+		var rw uint32
+		stable := false
+		for tries := 0; tries < 20 && !stable; tries++ {
+			st0 := simrt.Steps()
+			rw, _ = f.rcv.State()
+			s = f.snd.Window()
+			stable = simrt.Steps() == st0
+		}
+		if !stable {
+			return // no consistent snapshot to judge
+		}
 		q := int64(f.W) - int64(rw)
 		total := s + int64(f.pipeB) + q + int64(f.creditB)
 		if q > int64(f.maxQ) {
